@@ -329,3 +329,28 @@ class Model:
 
     def any_alive(self):
         return any(self.alive.values())
+
+
+class Recorder:
+    def __init__(self, sym):
+        self.sym = sym
+        self.vals = {}
+        self.replaying = False
+
+    def _draw(self, kind, name, *a, **kw):
+        if name in self.vals:
+            return self.vals[name]
+        v = getattr(self.sym, kind)(name, *a, **kw)
+        self.vals[name] = v
+        return v
+
+    def int(self, name, *a, **kw): return self._draw('int', name, *a, **kw)
+    def cint(self, name, *a, **kw): return self._draw('cint', name, *a, **kw)
+    def real(self, name, *a, **kw): return self._draw('real', name, *a, **kw)
+    def bool(self, name, *a, **kw): return self._draw('bool', name, *a, **kw)
+    def cbool(self, name, *a, **kw): return self._draw('cbool', name, *a, **kw)
+    def choice(self, name, seq): return self._draw('choice', name, seq)
+    def constrain(self, *c): return self.sym.constrain(*c)
+    def assume(self, c): return self.sym.assume(c)
+    def cover(self, t): return self.sym.cover(t)
+    def cover_if(self, t, *c): return self.sym.cover_if(t, *c)
